@@ -58,7 +58,7 @@ class Concretizer:
     def entry(self, typ, name, depth=0, _noov=False):
         """value on entry of the symbolic input `name` of declared type `typ` under the model"""
         ov = self.ex.overrides.get(name)
-        if ov is not None and not _noov:
+        if ov is not None and not _noov and not (ov == ('numstr',) and typ != ('str',)):
             typ = ov
         k = typ[0]
         from . import seqs
@@ -109,7 +109,24 @@ class Concretizer:
             return {'$obj': ci.qualname, 'id': name, 'fields': fields}
         if k == 'default':
             return {'$default': True}
+        if k == 'numstr':
+            return self.numstr(name)
+        if k == 'const':
+            return self.value(typ[1])
         return {'$opaque': f'{name}:{typ[1] if len(typ) > 1 else k}'}
+
+    def numstr(self, name):
+        """a symbolic numeral spelling: its decomposition under the model (replay.py rebuilds the text)"""
+        for kind in ('dec', 'hex'):
+            pre = f'{name}#{kind}.'
+            if any(n.startswith(pre) for n in self._names()):
+                iv = lambda x: _ev(self.model, z3.Int(pre + x))
+                bv = lambda x: _ev(self.model, z3.Bool(pre + x))
+                return {'$numstr': {'kind': kind, 'matches': bv('matches'), 'sign': iv('sign'),
+                                    'has_frac': bv('has_frac'), 'has_exp': bv('has_exp'), 'esign': iv('esign'),
+                                    'I': [iv('I.val'), iv('I.len')], 'F': [iv('F.val'), iv('F.len')],
+                                    'E': [iv('E.val'), iv('E.len')]}}
+        return {'$numstr': {'kind': 'none'}}
 
     def default(self, typ, depth=0):
         k = typ[0]
